@@ -20,6 +20,9 @@ func init() {
 	register("C10", explE, func(p *Prog, r *Res) {
 		ruleAppendOwnedFiltered(p, r, "C10-e reader-stacks-read-only", []string{"index", "manager"}, 8, readerStack)
 	})
+	register("C02", "C02-y = "+explE, func(p *Prog, r *Res) {
+		ruleAppendOwnedFiltered(p, r, "C02-y reader-stacks-read-only", []string{"index", "manager"}, 8, readerStack)
+	})
 	register("C07", "C07-g = "+explE, func(p *Prog, r *Res) {
 		ruleAppendOwnedFiltered(p, r, "C07-g reader-stacks-read-only", []string{"index", "manager"}, 8, readerStack)
 	})
